@@ -1781,6 +1781,12 @@ impl Tree {
 		// Replace the current levels with the reloaded ones
 		{
 			let mut levels_guard = self.core.inner.level_manifest.write()?;
+			// Table ids of the discarded timeline are not handed out again: readers
+			// opened before the restore still hold its tables, and whatever they read
+			// from them goes into the block cache under the table id - a new table with
+			// the same id would be served those blocks.
+			let used = levels_guard.next_table_id.load(Ordering::Acquire);
+			new_levels.next_table_id.fetch_max(used, Ordering::AcqRel);
 			*levels_guard = new_levels;
 		}
 
